@@ -182,6 +182,84 @@ func checkUCI(c Case, rec *evid.Rec) error {
 	return nil
 }
 
+// detour builds: one reversible move out by each side (pieces A, B), then R round trips of two other pieces
+// (C, D: out and back, four plies a round), then A and B go home. The root recurs exactly once, at the very end.
+func detour(t *rapid.T, root refchess.Pos) ([]string, bool) {
+	// a reversible, right-preserving move: not a pawn, not a capture, not a king or rook while rights exist
+	pick := func(p *refchess.Pos, not map[int]bool) (refchess.Move, bool) {
+		var cand []refchess.Move
+		for _, m := range p.Legal() {
+			k := p.Sq[m.From]
+			if k < 0 {
+				k = -k
+			}
+			if k == refchess.Pawn || p.IsCapture(m) || not[m.From] || not[m.To] {
+				continue
+			}
+			if (k == refchess.King || k == refchess.Rook) && p.Castle != [4]bool{} {
+				continue
+			}
+			cand = append(cand, m)
+		}
+		if len(cand) == 0 {
+			return refchess.Move{}, false
+		}
+		return cand[gen.Draw(t, 0, len(cand)-1, "dm")], true
+	}
+	var seq []refchess.Move
+	p := root
+	play := func(m refchess.Move) bool {
+		for _, l := range p.Legal() {
+			if l == m {
+				seq = append(seq, m)
+				p = p.Make(m)
+				return true
+			}
+		}
+		return false
+	}
+	back := func(m refchess.Move) refchess.Move { return refchess.Move{From: m.To, To: m.From} }
+	used := map[int]bool{}
+	a, ok := pick(&p, used)
+	if !ok || !play(a) {
+		return nil, false
+	}
+	used[a.From], used[a.To] = true, true
+	b, ok := pick(&p, used)
+	if !ok || !play(b) {
+		return nil, false
+	}
+	used[b.From], used[b.To] = true, true
+	c, ok := pick(&p, used)
+	if !ok || !play(c) {
+		return nil, false
+	}
+	used[c.From], used[c.To] = true, true
+	d, ok := pick(&p, used)
+	if !ok || !play(d) {
+		return nil, false
+	}
+	if !play(back(c)) || !play(back(d)) {
+		return nil, false
+	}
+	for r := gen.Draw(t, 24, 40, "rounds"); r > 1; r-- {
+		if !play(c) || !play(d) || !play(back(c)) || !play(back(d)) {
+			return nil, false
+		}
+	}
+	if !play(back(a)) || !play(back(b)) {
+		return nil, false
+	}
+	if p.Key() != root.Key() {
+		return nil, false
+	}
+	res := make([]string, len(seq))
+	for i, m := range seq {
+		res[i] = m.String()
+	}
+	return res, true
+}
+
 // TwoCase: two games from the initial position advanced in the order given (then each to its end).
 type TwoCase struct {
 	ViaStartPos [2]bool     `json:"via_startpos"`
@@ -290,6 +368,31 @@ func TestC10(t *testing.T) {
 			err, _ := checkCase(c, rec)
 			if err != nil {
 				rec.Fail("long_history", err.Error(), c)
+				t.Fatalf("%v", err)
+			}
+		})
+		rec.Rapid(t, "detour", evid.Pick(400, 30000), func(t *rapid.T) {
+			// leave a position, stay away from it for more than 100 / 127 reversible plies, come back: the position
+			// has occurred exactly twice, however far back the first occurrence lies
+			root, _ := gen.Root(t)
+			if gen.Chance(t, 1, 2, "startpos") {
+				root = refchess.MustFEN(gen.StartFEN)
+			}
+			root = root.NormEP()
+			root.Half = 0
+			moves, ok := detour(t, root)
+			if !ok {
+				rec.Class("detour_not_available")
+				return
+			}
+			c := Case{FEN: root.FEN(), Moves: moves}
+			rec.Class("detour")
+			if len(moves) >= 132 {
+				rec.Class("detour_of_more_than_127_plies")
+			}
+			err, _ := checkCase(c, rec)
+			if err != nil {
+				rec.Fail("detour", err.Error(), c)
 				t.Fatalf("%v", err)
 			}
 		})
